@@ -45,12 +45,13 @@ Theorem C14_numbering :
   /\ GenTables.bind_selectors = [("bindOne", 1); ("bindFirst", 2); ("bindLast", 3); ("bindAll", 15)]%string
   /\ GenTables.bind_targets = [("bindStruct", 16); ("bindSlice", 32)]%string
   /\ GenTables.magic = [252; 108]
-  /\ In ("bytecodeMajor", 1)%string GenTables.constants /\ In ("bytecodeMinor", 1)%string GenTables.constants
-  /\ In ("jumpByteLength", 2)%string GenTables.constants.
+  /\ TieFormat.get "bytecodeMajor" GenTables.constants = Some 1 /\ TieFormat.get "bytecodeMinor" GenTables.constants = Some 1
+  /\ TieFormat.get "jumpByteLength" GenTables.constants = Some 2.
 Proof.
   rewrite TieFormat.tie_opcodes, TieFormat.tie_typecodes, TieFormat.tie_bind_selectors, TieFormat.tie_bind_targets,
-          TieFormat.tie_magic, TieFormat.tie_constants.
-  repeat split; try reflexivity; cbn; tauto.
+          TieFormat.tie_magic.
+  destruct TieFormat.tie_version as (A & B & C). rewrite A, B, C.
+  repeat split; reflexivity.
 Qed.
 Print Assumptions C14_numbering.
 
